@@ -199,7 +199,7 @@ _ELEMS = {}
 
 def gen_array_elems(t, n, cs, mode, affine):
     """Contents of an array: a pure function of (type, n, content seed, mode).  A palette of 31 PRNG-generated
-    elements laid out with period 31*31 (or, one time in five, in runs of 1-9 equal neighbours), so neighbouring (and 31-apart) positions hold different values: a task
+    elements laid out with period 31*31 (or, three times in ten, in runs of 2-30 equal neighbours), so neighbouring (and 31-apart) positions hold different values: a task
     that reads or writes the wrong index is visible.  Cached per run: the worlds A, B and the element-wise
     reference are built from the same element objects (assignment into an array copies the value)."""
     key = (t, n, cs, mode, affine)
@@ -212,9 +212,9 @@ def gen_array_elems(t, n, cs, mode, affine):
             pal = [make_affine(et, m) for m in pal]
         k = len(pal)
         a, b = 1 + rr.below(k - 1) if k > 1 else 0, rr.below(k)
-        if rr.chance(0.2):
+        if rr.chance(0.3):
             # runs of equal neighbours (instanced data): a task that consults a neighbouring element is visible
-            run = 1 + rr.below(9)
+            run = 2 + rr.below(29)
             el = [pal[((i // run) * a + b) % k] for i in range(n)]
         else:
             el = [pal[(i * a + (i // k) * 3 + b) % k] for i in range(n)]
